@@ -335,6 +335,7 @@ EXPECT = {
   "c10_several_padding_blocks"
  ],
  "C11": [
+  "c11_streaminfo_is_the_only_block",
   "cue_non_cdda_accepted",
   "cue_non_cdda_accepted_254_tracks",
   "cue_non_cdda_accepted_index_254",
